@@ -347,7 +347,8 @@ def run_check(prop, tier, seed):
             # the two Apalache obligations of the ledger's inductive invariant (about the design, see DESIGN 10.5)
             cov["obligations"] = len(extra["ledger_inductive_invariant"])
             cov["discharged"] = sum(1 for o in extra["ledger_inductive_invariant"] if o["outcome"] == "NoError")
-            cov["checker_cmd"] = "apalache-mc check --cinit=ConstInit --next=LNext --inv=IndInv (--init=LInit --length=0 | --init=IndInit --length=1) Ledger.tla"
+            cov["checker_cmd"] = ("apalache-mc check --cinit=<ConstInit> --next=<Next> --inv=<IndInv> (--init=<Init> --length=0 | "
+                                  "--init=<IndInit> --length=1) %s.tla" % extra["ledger_inductive_invariant"][0].get("module", "Ledger"))
         cov["known_findings_seen"] = sorted(set(known_hits))
         ev["coverage"] = cov
         ev["assumptions"] = props.ASSUMPTIONS
